@@ -27,8 +27,6 @@ import (
 	"testing"
 	"time"
 
-	"google.golang.org/protobuf/proto"
-
 	"github.com/hashicorp/consul/internal/storage"
 	"github.com/hashicorp/consul/internal/storage/inmem"
 	"github.com/hashicorp/consul/proto-public/pbresource"
@@ -443,14 +441,14 @@ func runWindowConc(p wwParams, rng *core.Rand) *wwHist {
 		go func(r int) { // writer r owns resource r
 			defer wg.Done()
 			var uid, ver string
-			sync := func() {
+			resync := func() {
 				gate.RLock()
 				op := h.read(r, "sync")
 				gate.RUnlock()
 				recs[r] = append(recs[r], op)
 				uid, ver = op.OutUid, op.OutVer
 			}
-			sync()
+			resync()
 			for n := 0; n < p.Ops; n++ {
 				gate.RLock()
 				var op wwOp
@@ -474,7 +472,7 @@ func runWindowConc(p wwParams, rng *core.Rand) *wwHist {
 					uid, ver = "", ""
 					okWrites.Add(1)
 				case op.Err != "":
-					sync() // the restore took the resource back, or a blind create hit an existing one
+					resync() // the restore took the resource back, or a blind create hit an existing one
 				}
 				if wrng.Chance(30) {
 					runtime.Gosched()
@@ -766,6 +764,19 @@ func checkWindow(run *core.Run, h *wwHist) {
 					bad = true
 				}
 				eos = true
+				for r := 0; r < nRes && !bad; r++ {
+					if _, listed := pos[r]; listed || !w.Scope.matches(r) {
+						continue
+					}
+					absent := false
+					for _, st := range post[r] {
+						absent = absent || !st.present
+					}
+					if !absent {
+						viol("listing-omits-resource", fmt.Sprintf("watch %s, opened after Commit(), does not list resource %d although it exists in every state of the post-restore sequence %+v", w.Name, r, post[r]), ex)
+						bad = true
+					}
+				}
 				continue
 			}
 			r := e.Res
@@ -995,5 +1006,4 @@ func runWindowPart(t *testing.T, run *core.Run, rng *core.Rand) {
 	run.Floor("restore-window:writes-inside-window", nseq/2+nconc)
 	run.Floor("restore-window:post-restore-watches-complete", (nseq+nconc))
 	run.Floor("restore-window:old-watches-closed", (nseq+nconc))
-	_ = proto.Equal
 }
